@@ -73,6 +73,13 @@ static_assert(_MSC_FULL_VER >= 190024210, "Visual C++ 2015 Update 3 or later req
 #include <memory>
 #include <string>
 
+#ifdef CHAISCRIPT_VERIF
+// verification hook: a harness-defined type that is befriended by the engine classes it inspects
+namespace chaiscript_verif {
+  struct Access;
+}
+#endif
+
 namespace chaiscript {
   constexpr static const int version_major = 7;
   constexpr static const int version_minor = 0;
